@@ -1,11 +1,13 @@
 (* M-NASLOT: the named-argument vector of a (reused) transit event slot, as BackendWorker::_populate_formatted_named_args
-   fills it: the vector left behind by whatever statement used the slot before (possibly not cleared: the clean-up after
-   _process_transit_event is skipped when the dispatch throws... it is not, today, but nothing in this function relies
-   on it) is resized to the number of placeholder names, keys are assigned by index, values are assigned by index.
+   fills it. A transit event is reused; the vector it holds may be whatever an earlier statement left there (the backend
+   clears it after processing an event, but this function does not rely on that): the vector is resized to the number
+   of placeholder names, keys are assigned by index, values are assigned by index.
    Theorem: whatever the slot held, after the call it holds exactly this statement's pairs, in order (C19: "one
    key/value pair per argument, in order, keyed by the placeholder name").
    The variant without the resize (names appended to what is there) is refuted. Definitions and proofs are small
-   enough to share a file; nothing here is extracted. *)
+   enough to share a file; nothing here is extracted (the tie is T-src: fact c19_named_args_resized + pinned skeleton,
+   and the backend-driver slot phase of props/c19.py). Extra positional arguments beyond the names ("_i" keys) are not
+   modelled: premise length vals = length names. *)
 From Coq Require Import List Arith Lia Bool.
 Import ListNotations.
 
